@@ -228,6 +228,9 @@ def r5_4(ctx: Ctx) -> RuleResult:
                 rr.ok(fn.loc(eq_calls[0]), f"test: values compared by {callee_name(eq_calls[0])}()")
     if n == 0:
         raise AnalysisError("R5.4: the `test` operation performs no value comparison")
+    from .c02 import check_equality_routines
+
+    check_equality_routines(ctx, rr)
     return rr
 
 
@@ -351,4 +354,53 @@ def r5_7(ctx: Ctx) -> RuleResult:
     return rr
 
 
-RULES = [r5_1, r5_3, r5_4, r5_5, r5_6, r5_7]
+def r5_8(ctx: Ctx) -> RuleResult:
+    """`move` is remove-then-add: the destination is located in the document as
+    it is *after* the source has been removed."""
+    from sa.flow import Flow
+    from sa.must import MayDomain
+
+    rr = RuleResult("R5.8", "move locates its destination after removing the source", floor=1)
+    cls = [c for c in op_classes(ctx) if op_name(ctx, c) == "move"]
+    if len(cls) != 1:
+        raise AnalysisError("R5.8: the move operation class was not found")
+    fn = cls[0].methods.get("apply")
+    if fn is None:
+        raise AnalysisError("R5.8: OpMove.apply not found")
+    src_parent = dest_call = None
+    for n in ast.walk(fn.node):
+        if isinstance(n, ast.Assign) and isinstance(n.value, ast.Call) and callee_name(n.value) == "resolve_parent":
+            recv = path_of(n.value.func.value) or ""  # type: ignore[union-attr]
+            if "source" in recv and isinstance(n.targets[0], ast.Tuple):
+                src_parent = path_of(n.targets[0].elts[0])
+    if src_parent is None:
+        raise AnalysisError("R5.8: cannot find the variable holding the source's parent")
+
+    def expr_events(e: ast.expr) -> List[str]:
+        if isinstance(e, ast.Call) and callee_name(e) in ("resolve_parent", "resolve") and "dest" in (path_of(e.func.value) or ""):  # type: ignore[union-attr]
+            return ["dest_located@"]
+        return []
+
+    flow = Flow(fn.node, MayDomain(expr_events=expr_events))
+    dels = [
+        n for n in ast.walk(fn.node)
+        if isinstance(n, ast.Delete) and any(isinstance(t, ast.Subscript) and path_of(t.value) == src_parent for t in n.targets)
+    ] + [
+        n for n in ast.walk(fn.node)
+        if isinstance(n, ast.Expr) and isinstance(n.value, ast.Call) and callee_name(n.value) in ("pop", "remove")
+        and path_of(n.value.func.value) == src_parent  # type: ignore[union-attr]
+    ]
+    if not dels:
+        raise AnalysisError("R5.8: no removal of the source found in OpMove.apply")
+    for d in dels:
+        st = flow.pre.get(id(d)) or frozenset()
+        if "dest_located@" in st:
+            rr.bad(fn, d, "the source is removed *after* the destination has been located: RFC 6902 defines move as "
+                   "remove followed by add, so a destination path that runs through a later sibling of the removed "
+                   "array element addresses the wrong container", construct=short(d))
+        else:
+            rr.ok(fn.loc(d), f"move: `{short(d, 60)}` precedes the destination lookup")
+    return rr
+
+
+RULES = [r5_1, r5_3, r5_4, r5_5, r5_6, r5_7, r5_8]
